@@ -13,7 +13,7 @@ LEVEL = "exploration"
 RULE = ("all texts t of <=3 (thorough 4) symbols over a 34-symbol alphabet, without Unicode whitespace at the ends "
         "(link-title context: also with blanks at the ends) x forms {backslash before every ASCII punctuation, "
         "decimal, hex and named character references for punctuation and non-ASCII} x contexts {paragraph, ATX "
-        "heading, emphasis, link text, image alt, link title, table cell} x {commonmark+table+strikethrough, "
+        "heading, emphasis, strong, strikethrough, emphasis inside link text, link text, image alt, link title, table cell} x {commonmark+table+strikethrough, "
         "js-default}; the rendered document must equal the context template with the independently HTML-escaped t. "
         "Non-trivial = t contains at least one ASCII punctuation character; distinct = distinct (t, form).")
 
@@ -61,6 +61,9 @@ def cases(e, h, xhtml, table):
         "link": ("[" + e + "](u)", f'<p><a href="u">{h}</a></p>\n'),
         "img": ("![" + e + "](u)", f'<p><img src="u" alt="{h}"' + (" />" if xhtml else ">") + "</p>\n"),
         "title": ('[x](u "' + e + '")', f'<p><a href="u" title="{h}">x</a></p>\n'),
+        "strong": ("**" + e + "**", f"<p><strong>{h}</strong></p>\n"),
+        "s": ("~~" + e + "~~", f"<p><s>{h}</s></p>\n"),
+        "em_in_link": ("[*" + e + "*](u)", f'<p><a href="u"><em>{h}</em></a></p>\n'),
     }
     if table:
         out["td"] = ("|" + e + "|\n|-|", f"<table>\n<thead>\n<tr>\n<th>{h}</th>\n</tr>\n</thead>\n</table>\n")
@@ -139,7 +142,7 @@ def ref_case(md, c, ref, value, acc, label):
 
 def bounds(tier):
     return {"alphabet": CH, "L": 4 if tier == "thorough" else 3, "forms": list(FORMS), "configs": CFGS,
-            "contexts": ["p", "h", "em", "link", "img", "title", "td"], "named_references": len(NAMED),
+            "contexts": ["p", "h", "em", "strong", "s", "em_in_link", "link", "img", "title", "td"], "named_references": len(NAMED),
             "all_html5_names": len(all_named()), "numeric_points": [hex(x) for x in NUMERIC_POINTS],
             "numeric_spellings": "decimal padded to 7 digits, hex (x/X, both cases) padded to 6 digits"}
 
